@@ -36,6 +36,10 @@ func runC16(c *eng.Ctx) {
 	c.Rule("R16.5", "K1")
 	rulePublishWaitsWhereTheAckDecides(c)
 	ruleAckInboxIsNotLimitedToOneMessage(c)
+	ruleForeignAckNeverCompletesAPublish(c)
+	ruleAPublishGoesOnTheWireOnce(c)
+	c.Rule("R16.8", "K6")
+	ruleStreamConfigCopiesAreComplete(c)
 	// ---- R16.1
 	c.Rule("R16.1", "K1")
 	if fn := c.Fn(cl + "newMessageSetFromProto"); fn != nil {
